@@ -4,11 +4,11 @@
 set -u
 LOG=/tmp/regress-seeded.log; : > $LOG
 cd /verif
-for d in seeded/*/; do
+for d in /verif/seeded/*/; do
   n=$(basename $d); id=${n%-m*}
   if [ $# -gt 0 ] && ! echo " $* " | grep -q " $id "; then continue; fi
-  p=$d/patch.diff
-  git -C /repo apply --check $p 2>/dev/null || p=$(ls $d/patch-rebased-*.diff 2>/dev/null | head -1)
+  p=${d}patch.diff
+  git -C /repo apply --check $p 2>/dev/null || p=$(ls ${d}patch-rebased-*.diff 2>/dev/null | head -1)
   out=$(tools/try_mutant.sh $p $id 2>&1 | tail -1)
   case "$out" in exit=1) r=caught ;; exit=0) r=MISSED ;; *) r="ERROR($out)" ;; esac
   echo "$n $r $(date +%T)" >> $LOG
